@@ -86,6 +86,7 @@ class Release:
         self.msg = None
         self.outcome = None
         self.forgotten = False
+        self.alloc = None  # (run id, db.next() before, max stored run, carried id) at dispatch
         self.completes = 0
         self.updates = 0
         self.purges = 0
@@ -127,6 +128,8 @@ class Sim:
         self.bad = []  # (clause, detail)
         self.stored_runids = set()
         self.nv = 0
+        self._patches = []
+        self.reloads = 0
         self._install()
         world.reset_pipeline_state()
         world.fresh_db(targets)
@@ -211,6 +214,24 @@ class Sim:
                 for m in sim.monitors:
                     m.after_res(sim, msg)
 
+        orig_rerunid = farm.rerunid
+
+        def rerunid(job):
+            nxt = None
+            try:
+                nxt = sim.db.next()
+            except Exception:  # pylint: disable=broad-exception-caught
+                pass
+            rid = orig_rerunid(job)
+            info = (rid, nxt, max(sim.stored_runids) if sim.stored_runids else 0, job.get('runid', None))
+            # the allocation belongs to the units of this job released by the current dispatch
+            for r in sim.releases:
+                if r.tag == job.tag and r.state == 'released' and r.alloc is None:
+                    r.alloc = info
+            return rid
+
+        self._orig['rerunid'] = orig_rerunid
+        farm.rerunid = rerunid
         sch.next_job_batch = next_job_batch
         sch.organize = organize
         sch.complete = complete
@@ -219,7 +240,15 @@ class Sim:
         farm.Hand._res = staticmethod(_res)  # pylint: disable=protected-access
         sch.promote.organize = organize
 
+    def patch(self, obj, name, new):
+        '''monitor-installed wrapper, restored by close()'''
+        self._patches.append((obj, name, obj.__dict__[name] if isinstance(obj, type) else getattr(obj, name)))
+        setattr(obj, name, new)
+
     def close(self):
+        for obj, name, orig in reversed(self._patches):
+            setattr(obj, name, orig)
+        self._patches = []
         sch, farm, o = self.sch, self.farm, self._orig
         sch.next_job_batch = o['next_job_batch']
         sch.organize = o['organize']
@@ -227,6 +256,7 @@ class Sim:
         sch.update = o['update']
         sch.purge = o['purge']
         farm.Hand._res = o['_res']  # pylint: disable=protected-access
+        farm.rerunid = o['rerunid']
         self.chron_mod.append = o['chron']
         for w in self.workers.values():
             w.lost = True
@@ -332,7 +362,9 @@ class Sim:
             r for r in self.releases
             if r.key() == (m.jobid, target) and r.state in ('released', 'queued') and r.msg is None
         ]
-        rel = cand[0] if cand else None
+        # several units of one (job, target) can sit in the queue (see known_findings): the run id tells them apart
+        exact = [r for r in cand if r.alloc is not None and r.alloc[0] == m.runid]
+        rel = exact[0] if exact else (cand[0] if cand else None)
         if rel is not None:
             rel.state = 'handed'
             rel.worker = w.wid
@@ -526,7 +558,9 @@ class Sim:
         self.epoch += 1
         self._nodes = None
         for r in self.releases:
-            if r.state in ('released', 'queued', 'handed'):
+            if r.state in ('released', 'queued'):
+                r.state = 'cleared'  # farm.clear() emptied the queues at load: never handed
+            if r.state in ('cleared', 'handed'):
                 r.stale = True
         for m in self.monitors:
             m.on_reload(self)
@@ -614,6 +648,8 @@ class Driver:
         ops += [('status', w.get('status', 0))] if busy else []
         ops += [('advance', w.get('advance', 0))]
         ops += [('organize', w.get('organize', 0))]
+        ops += [('lifecycle', w.get('lifecycle', 0))]
+        ops += [('reload', w.get('reload', 0))] if sim.world.fsm.state == 'running' else []
         total = sum(x for _o, x in ops)
         r = rng.random() * total
         for op, x in ops:
@@ -669,6 +705,26 @@ class Driver:
             return {'op': 'status', 'w': rng.choice(sorted(x.wid for x in busy))}
         if op == 'advance':
             return {'op': 'advance', 'dt': rng.choice([1, 5, 60, 3600, 86400])}
+        if op == 'lifecycle':
+            st = sim.world.fsm.state
+            if st == 'running':
+                return {'op': 'lifecycle', 'to': 'gitting'}
+            if st == 'gitting':
+                return {'op': 'lifecycle', 'to': 'running'}
+            return {'op': 'dispatch'}
+        if op == 'reload':
+            import copy  # pylint: disable=import-outside-toplevel
+
+            sim.reloads += 1
+            new = copy.deepcopy(sim.spec)
+            new['pkg'] = sim.spec['pkg'].split('_r')[0] + f'_r{sim.reloads}'
+            if rng.random() < 0.5:
+                # a software update bumps some versions
+                for tk in new['tasks']:
+                    for a in tk['algs']:
+                        if rng.random() < 0.3:
+                            a['ver'] = [a['ver'][0], a['ver'][1] + 1, 0]
+            return {'op': 'reload', 'rev': f'rev{sim.reloads}', 'spec': new}
         if op == 'organize':
             names = rng.sample(tags, 1)
             tg = rng.sample(targets, 1) if targets else ['__all__']
